@@ -48,7 +48,7 @@ def run(tier, seed):
     ck.proof = lib.proof_step('props/C08.v', matchcheck.MATCH_CONE)
     ck.broken += ck.proof['broken']
     if not ck.proof['driver_ok']:
-        return ck.finish(rule='driver unavailable')
+        ck.notes['driver'] = 'unavailable: model-side runs skipped, searching with the implementation-side oracles only'
     import soupsieve as sv
     n = 100 if tier == 'quick' else 2500
     custom = {':--cust': 'p, div > span'}
@@ -106,6 +106,23 @@ def run(tier, seed):
                                              key=key)
                 ops = [('select', (), 0)] + [('match', sc.path_of[id(e)]) for e in elements[:15]]
                 sc.add(s, ops, namespaces=nsmap, custom=custom)
+            if style == 'nasty':
+                # every state pseudo-class once on the whole document (all of them walk forms / ancestors / attributes)
+                for s in (':in-range', ':out-of-range', ':dir(ltr)', ':dir(rtl)', ':lang(en)', ':default', ':indeterminate',
+                          ':placeholder-shown', ':read-write', ':read-only', ':checked', ':enabled', ':disabled', ':required',
+                          ':optional', ':link', ':defined', ':root', ':empty'):
+                    try:
+                        with warnings.catch_warnings():
+                            warnings.simplefilter('ignore')
+                            sv.select(s, top, namespaces=nsmap)
+                        ck.count(('ok', 'battery', s, profile))
+                    except RecursionError:
+                        raise
+                    except Exception as ex:
+                        key = 'C18-week-year-range' if is_known(ex, top) else None
+                        ck.violation(f'select({s!r}) raised {type(ex).__name__}: {str(ex)[:100]}',
+                                     {'pattern': s, 'op': 'select', 'namespaces': nsmap, 'markup': matchcheck.markup_of(sc),
+                                      'tree': sc.label, 'exception': type(ex).__name__, 'target': 'document'}, key=key)
             if len(ck.samples) < 3:
                 ck.sample({'tree': sc.label, 'patterns': [i[0] for i in sc.items][:3]})
             scs.append(sc)
